@@ -58,14 +58,17 @@ LEVEL_TEXT = (
     "each file contains the skipped rows and the header row; evaluated by the harness for every case); csv_opts_rows / "
     "csv_names_any_file / csv_files_rows discharge it for header in {absent,'infer',0,None} x names for every blocksize; "
     "names_keep_header_refuted and blank_header_bytes_refuted are the two defects the model exposes (a seeded keyword "
-    "rewrite; the blank first line, repaired in /repo e673923); "
+    "rewrite; the blank first line, repaired in /repo e673923); csv_models_agree / headerOf_agrees tie the two models; "
     "(3) to_csv: the per-partition header decision (single_file, header_first_partition_only, header=False) and "
     "roundtrip_single_file / roundtrip_multi_file / roundtrip_no_header: reading the written file(s) block-wise returns "
     "exactly the partitions' rows in order, empty partitions included. "
     "VALIDATED on every run, not proved: pandas' line-level behaviour = pdFrame, every modelled function against the real "
     "one on tiny files (blocksizes 1..N, several files), read_csv == pandas.read_csv on random typed frames, to_csv bytes "
-    "and round trips incl. name_function / index / dates; quoted fields containing the line terminator and a first block "
-    "that ends before the header row are known findings.")
+    "and round trips incl. name_function / index / dates; the sample cut for skiprows with a small blocksize (modelled and "
+    "diffed, no theorem). Known findings: quoted fields containing the line terminator, a first block that ends before "
+    "the header row / the skipped rows, the sample cut to the blocksize ending before the header row. Repaired in /repo "
+    "during this review: e673923 (blank first line), af2d511 (header=None and a rowless block), 9074abb (empty files with "
+    "names=).")
 LEVEL_NOTE = ("Trusted: Lean kernel + standard axioms; pandas parser/formatter beyond the line level; fsspec local files; the "
               "TextBlocks model of group bag (C50). Parquet half: not applicable in this sandbox (no pyarrow) - stated here "
               "and in LEVEL_TEXT.")
